@@ -5,6 +5,7 @@ import Relic.Driver.E2E
 import Relic.Driver.Cms
 import Relic.Driver.Cab
 import Relic.Driver.PS
+import Relic.Driver.MSI
 import Relic.Driver.C20
 import Relic.Driver.C15
 import Relic.Driver.C06
@@ -29,6 +30,7 @@ def dispatch (line : String) : String :=
   | "CMS" :: rest => Relic.Driver.Cms.handle rest
   | "CAB" :: rest => Relic.Driver.Cab.handle rest
   | "PS" :: rest => Relic.Driver.PS.handle rest
+  | "MSI" :: rest => Relic.Driver.MSI.handle rest
   | "C20" :: rest => Relic.Driver.C20.handle rest
   | "C15" :: rest => Relic.Driver.C15.handle rest
   | "C06" :: rest => Relic.Driver.C06.handle rest
